@@ -184,7 +184,7 @@ class Model:
         parts = rel.split("/")
         if parts[0] == "apps" and (len(parts) == 2 or parts[2] == "__init__.py"):
             app = parts[1][:-3] if len(parts) == 2 else parts[1]
-            return self.tree.apps.get(app)
+            return self.tree.apps.get(app, "<not configured>")
         return None
 
     def execute(self, rel, executed):
@@ -306,7 +306,8 @@ def initial_tree(rng):
             t.new_file(rel)
     for app in ("a1", "a2"):
         if rng.random() < 0.75:
-            t.apps[app] = {"k": rng.randint(0, 9)}
+            # (an app may be configured with an empty entry, `apps: {a2: }` in yaml)
+            t.apps[app] = {"k": rng.randint(0, 9)} if rng.random() < 0.8 else None
     return t
 
 
@@ -469,13 +470,13 @@ def run_case(case):
                     del tree.apps[app]
                     op = f"appcfg remove {app}"
                 elif app in tree.apps:
-                    tree.apps[app] = {"k": tree.apps[app]["k"] + 1}
+                    tree.apps[app] = {"k": (tree.apps[app] or {"k": 0})["k"] + 1}
                     op = f"appcfg change {app}"
                 else:
                     tree.apps[app] = {"k": rng.randint(0, 9)}
                     op = f"appcfg add {app}"
                 obs["app_config_changes"] += 1
-                w.config["apps"] = {a: dict(c) for a, c in tree.apps.items()}
+                w.config["apps"] = {a: (dict(c) if c is not None else None) for a, c in tree.apps.items()}
             elif k < 0.93:
                 m = rng.choice(["m1", "m2"])
                 a, b = f"modules/{m}.py", f"modules/{m}/__init__.py"
@@ -538,7 +539,7 @@ def run_case(case):
         orphan = sum(1 for c in model.loaded if c.startswith("modules.") and c.count(".") == 1 and c not in imported)
 
     files = {rel: tree.source(rel) for rel in tree.files}
-    config = {"apps": {a: dict(c) for a, c in tree.apps.items()}}
+    config = {"apps": {a: (dict(c) if c is not None else None) for a, c in tree.apps.items()}}
 
     def pre(w):
         for rel in tree.files:
